@@ -72,7 +72,7 @@ PRECEDERS = {"ascii": "a", "2-byte": "é", "3-byte": "名", "4-byte": "😀", "c
 WIDTHS = {"short": 0, "300B": 300, "9KiB": 9000}
 
 
-def multi_insertion(counts=(0, 1, 2, 3, 4, 10, 100), big_counts=(1000, 5000)):
+def multi_insertion(counts=(0, 1, 2, 3, 4, 10, 100), big_counts=(1000, 2000)):
     """n statements per file x statement width x what precedes each insertion point. Drives several write_all chunks and
     write-cache drains per file."""
     for n in tuple(counts) + tuple(big_counts):
